@@ -6,7 +6,34 @@ edit pushes out of the subset disappears from `Gen/FnS.lean` and its theorem no 
 -/
 import Proofs.FnSTaoFoto
 import Proofs.FnSRender
+import Proofs.FnSTaoDay
 namespace Props.FnSC17
+
+set_option maxRecDepth 100000
+def listing (fn : String) : List (String × String × String) × List String × List String :=
+  ((Gen.FnS.atoms.filter (fun a => a.1 == fn)).map (fun a => a.2),
+   (Gen.FnS.dropped.filter (fun a => a.1 == fn)).map (fun a => a.2),
+   (Gen.FnS.notes.filter (fun a => a.1 == fn)).map (fun a => a.2))
+
+theorem pin_calendar_Tao_IsDaySanHui : (Gen.FnS.translated.contains "calendar.Tao.IsDaySanHui" && listing "calendar.Tao.IsDaySanHui" ==
+    (([("a1", "Bool", "t.isDayIn(TaoUtil.SAN_HUI)")] : List (String × String × String)),
+     ([] : List String),
+     ([] : List String))) = true := by decide +kernel
+
+theorem pin_calendar_Tao_IsDaySanYuan : (Gen.FnS.translated.contains "calendar.Tao.IsDaySanYuan" && listing "calendar.Tao.IsDaySanYuan" ==
+    (([("a1", "Bool", "t.isDayIn(TaoUtil.SAN_YUAN)")] : List (String × String × String)),
+     ([] : List String),
+     ([] : List String))) = true := by decide +kernel
+
+theorem pin_calendar_Tao_IsDayWuLa : (Gen.FnS.translated.contains "calendar.Tao.IsDayWuLa" && listing "calendar.Tao.IsDayWuLa" ==
+    (([("a1", "Bool", "t.isDayIn(TaoUtil.WU_LA)")] : List (String × String × String)),
+     ([] : List String),
+     ([] : List String))) = true := by decide +kernel
+
+theorem pin_calendar_Tao_IsDayBaJie : (Gen.FnS.translated.contains "calendar.Tao.IsDayBaJie" && listing "calendar.Tao.IsDayBaJie" ==
+    (([("a1", "String", "t.lunar.GetJieQi()")] : List (String × String × String)),
+     ([] : List String),
+     ([] : List String))) = true := by decide +kernel
 
 def obligations : List Lean.Name := [
   ``FnSEq.taoGetMonth_eq,
@@ -56,6 +83,15 @@ def obligations : List Lean.Name := [
   ``FnSEq.fotoGetMonthInChinese_eq,
   ``FnSEq.fotoGetDayInChinese_eq,
   ``FnSEq.fotoToString_eq,
-  ``FnSEq.fotoString_eq ]
+  ``FnSEq.fotoString_eq,
+  ``FnSEq.taoIsDaySanHui_eq,
+  ``FnSEq.taoIsDaySanYuan_eq,
+  ``FnSEq.taoIsDayWuLa_eq,
+  ``FnSEq.taoIsDaySanHui_eq_model,
+  ``FnSEq.taoIsDaySanYuan_eq_model,
+  ``FnSEq.taoIsDayWuLa_eq_model,
+  ``FnSEq.taoIsDayBaJie_shape,
+  ``FnSEq.taoIsDayBaJie_lookup,
+  ``FnSEq.taoIsDayBaJie_eq ]
 
 end Props.FnSC17
